@@ -26,7 +26,7 @@ ASSUMPTIONS = [
     'transitional windows (two operators active for one latency, or none for a lifetime after a kill) are inherent: P1 is asserted only at settle points',
     'lifetimes are whole seconds >= 3',
 ]
-BUDGET = {'quick': 40, 'thorough': 1000}
+BUDGET = {'quick': 120, 'thorough': 1000}
 TOL = 1e-6
 NAMES = ['A', 'B', 'C']
 
